@@ -145,11 +145,13 @@ inductive RErr where
   | crcMismatch
   /-- `*ProtocolErr{Code}` (a four-byte frame) -/
   | proto (code : Int)
+  /-- `ErrProtocolHeaderMismatch` -/
+  | headerMismatch
   deriving Repr, DecidableEq
 
 def RErr.tag : RErr → String
   | .eof => "eof" | .ueof => "ueof" | .badLen n => s!"badlen:{n}" | .seqMismatch => "seq"
-  | .crcMismatch => "crc" | .proto c => s!"proto:{c}"
+  | .crcMismatch => "crc" | .proto c => s!"proto:{c}" | .headerMismatch => "header"
 
 inductive Out where
   | ok (frame rest : Bytes)
@@ -351,6 +353,13 @@ def header (cfg : Cfg) : Kind → Bytes
   | .intermediate => cfg.tagIntermediate
   | .padded => cfg.tagPadded
   | .full => []
+
+/-- `Codec.ReadHeader` (used by `transport.ListenCodec`): the stream after the tag, or
+`ErrProtocolHeaderMismatch`; the full protocol has no tag. -/
+def readHeader (cfg : Cfg) (k : Kind) (s : Bytes) : Except RErr Bytes :=
+  let tag := header cfg k
+  if s.length < tag.length then .error (if s.length = 0 then .eof else .ueof)
+  else if s.take tag.length = tag then .ok (s.drop tag.length) else .error .headerMismatch
 
 /-- `transport.detectCodec`: the protocol and the stream handed to its codec (for `full` the four
 bytes already read are pushed back). -/
